@@ -278,20 +278,42 @@ func genKeys(repo string) {
 			})
 		}
 	}
+	// BeginBlocker and the package-level helpers it calls (transitively): every write to the Epochs map
+	pkg := map[string]*ast.FuncDecl{}
 	for _, fl := range ParseDir(repo + "/x/epochs") {
 		for _, d := range fl.F.Decls {
-			fd, ok := d.(*ast.FuncDecl)
-			if !ok || fd.Body == nil || fd.Name.Name != "BeginBlocker" {
-				continue
+			if fd, ok := d.(*ast.FuncDecl); ok && fd.Body != nil && fd.Recv == nil {
+				pkg[fd.Name.Name] = fd
 			}
-			ast.Inspect(fd.Body, func(n ast.Node) bool {
-				if c, ok := n.(*ast.CallExpr); ok && strings.HasSuffix(Nospace(c.Fun), ".Epochs.Insert") && len(c.Args) == 3 {
-					val := Nospace(c.Args[2])
-					bbInsert = norm(c.Args[1], val) + " := " + norm(c.Args[2], val)
-				}
-				return true
-			})
 		}
+	}
+	reach := map[string]bool{}
+	var inserts []string
+	var visit func(name string)
+	visit = func(name string) {
+		fd, ok := pkg[name]
+		if !ok || reach[name] {
+			return
+		}
+		reach[name] = true
+		ast.Inspect(fd.Body, func(n ast.Node) bool {
+			c, ok := n.(*ast.CallExpr)
+			if !ok {
+				return true
+			}
+			if strings.HasSuffix(Nospace(c.Fun), ".Epochs.Insert") && len(c.Args) == 3 {
+				val := Nospace(c.Args[2])
+				inserts = append(inserts, norm(c.Args[1], val)+" := "+norm(c.Args[2], val))
+			}
+			if id, ok := c.Fun.(*ast.Ident); ok {
+				visit(id.Name)
+			}
+			return true
+		})
+	}
+	visit("BeginBlocker")
+	if len(inserts) > 0 {
+		bbInsert = strings.Join(inserts, " | ")
 	}
 	fmt.Printf("Definition add_exists_key : string := %s.\n", CoqString(addExists))
 	fmt.Printf("Definition add_insert : string := %s.\n", CoqString(addInsert))
